@@ -110,6 +110,38 @@ func (sc *Scenario) Materialize(root string, resultDir string) ([]string, error)
 		}
 		args = append(args, "parameter="+pdir)
 	}
+	if sc.PrivateTexture != "" {
+		// a parameter folder of the project's own: every shipped file, the two texture tables with one more class at the end
+		pdir := "parameter_" + p
+		if err := linkParamFolder(filepath.Join(root, pdir), map[string]bool{"HYPAR.TRU": true, "PARCAP.TRU": true}); err != nil {
+			return nil, err
+		}
+		like := strings.ToUpper(strings.TrimSpace(sc.PrivateTextureLike))
+		for _, name := range []string{"HYPAR.TRU", "PARCAP.TRU"} {
+			b, err := os.ReadFile(filepath.Join(paramDir, name))
+			if err != nil {
+				return nil, err
+			}
+			lines := strings.Split(strings.TrimRight(string(b), "\r\n"), "\n")
+			var add []string
+			for i := 0; i < len(lines); i++ {
+				l := lines[i]
+				if len(l) >= 3 && strings.ToUpper(strings.TrimSpace(l[0:3])) == like && (i > 0 || name == "PARCAP.TRU") {
+					add = append(add, fmt.Sprintf("%-3s", sc.PrivateTexture)+l[3:])
+					if name == "PARCAP.TRU" && i+1 < len(lines) {
+						add = append(add, lines[i+1]) // the capillary table has two lines per texture
+					}
+					break
+				}
+			}
+			if len(add) == 0 {
+				return nil, fmt.Errorf("texture %s not found in %s", like, name)
+			}
+			lines = append(lines, add...)
+			os.WriteFile(filepath.Join(root, pdir, name), []byte(strings.Join(lines, "\n")+"\n"), 0644)
+		}
+		args = append(args, "parameter="+pdir)
+	}
 	if len(sc.AliasCrops) > 0 {
 		// a parameter folder of the project's own: every shipped file plus the parameter files the project supplies
 		pdir := "parameter_" + p
